@@ -58,6 +58,13 @@ def main(argv):
     except Exception:
         ctx.broken.append(('correspondence-broken', 'harness exception: ' + traceback.format_exc()[-1500:]))
     have_input = any(v['kind'] == 'failing-input' for v in ctx.violations)
+    if not have_input and not deep and any(v['kind'] == 'correspondence-broken' for v in ctx.violations):
+        # model and implementation disagree: search the implementation with the thorough budget for an input on
+        # which the property itself fails (oracle only)
+        try:
+            mod.run(ctx, deep=True, model_ok=False)
+        except Exception:
+            ctx.broken.append(('correspondence-broken', 'harness exception in the deep search: ' + traceback.format_exc()[-800:]))
     for kind, detail in ctx.broken:
         thm = None
         if kind == 'proof-broken':
